@@ -129,4 +129,30 @@ CHECKS = {
         "trusted_base": CHAIN_TB + ["Go slice aliasing is not modelled: the model's values are immutable, so an in-place edit of a chained block shows up as a correspondence difference on the block hash (that is how the pinned tree's defect D2 appears)"],
         "assumptions": ["'identical content and hash' is definitional for immutable model values; the theorem content is which heights may change and that the chain is hash-linked in every reachable state"],
     },
+    "C02": {
+        "suites": chain_suites(2),
+        "monitor_props": ["C02"],
+        "mismatch_kinds": ["admit", "validate", "update"],
+        "rule": CHAIN_RULE + " For C02 the generator submits conflicting spends in every position: the same output twice in one transaction, in two pooled transactions, in the last block and the pool, in adjacent and distant blocks, across a re-sync, and resubmissions; the monitor recomputes the consumed-reference multiset of every served chain.",
+        "trusted_base": CHAIN_TB,
+        "assumptions": ["transaction ids along a chain are pairwise distinct (ids are content hashes; the decoder checks them: C15). Without that the registry's id-entry deletion allows a re-recorded id to be spent again: C02_id_reuse_refuted",
+                        "'created in an earlier block' is proved as 'spendable before the block or created earlier in the same block': the producer does keep same-block spends (known finding)"],
+    },
+    "C10": {
+        "suites": chain_suites(10),
+        "monitor_props": ["C10"],
+        "mismatch_kinds": ["admit", "validate", "update", "regsync"],
+        "rule": CHAIN_RULE + " For C10 the generator creates yielding outputs in every pattern (same address twice in one transaction, one block, adjacent blocks; spent and recreated; to removed addresses) and drives registry refreshes marking any subset invalid; the monitor counts unspent yielding outputs per address after every block of every served chain.",
+        "trusted_base": CHAIN_TB + ["proof-of-humanity answers are scripted (HumansManager is an oracle)"],
+        "assumptions": ["the verifier consults the registry state it has at that point of a batch (one block behind inside a batch: see the C05 findings)",
+                        "a reward transaction's own yielding output is not subject to the registration test (the property speaks of ordinary transactions)"],
+    },
+    "C13": {
+        "suites": [{"suite": "faults", "n_quick": 48, "n_thorough": 1200, "shards": 8, "shards_thorough": 16}],
+        "monitor_props": ["C13"],
+        "mismatch_kinds": ["update", "validate", "admit", "regsync"],
+        "rule": "faults suite: host chains of 0, 1, 2, 3, 4, 6 blocks (with pending removals), 5-7 consecutive sync rounds, each with 1-8 neighbors drawn from: error, silence beyond the timeout, garbage, empty answer, a chain with one rule broken at one position (16 kinds), answers that change between the incremental and the full request, honest; every round is compared with the model; monitors: a kept round leaves the complete state digest unchanged, the round returns within 2*n*timeout + 1 s, runtime.NumGoroutine returns to its baseline; distinct by (host length, fault assignment, outcome)",
+        "trusted_base": CHAIN_TB + ["goroutine scheduling and wall-clock time are runtime behaviour: the fetch protocol is proved as a transition system, the time bound and the goroutine count are measured on the implementation"],
+        "assumptions": ["a neighbor whose GetBlocks call itself never returns keeps its fetch goroutine alive until the transport's own timeout (fetch_never_quiescent): the peer client has a connection timeout"],
+    },
 }
